@@ -397,11 +397,11 @@ Example C11_ex_collection_bad_index :
 Proof. vm_compute. reflexivity. Qed.
 
 (* ================================================================== (g) malformed input *)
-(* The four operations repaired in src/woff2.rs (commits 8e2deb3, 309cc90, 5955e8e, 84a8f8b), each
+(* The four operations repaired in src/woff2.rs (commits 33c9cfe, 86608df, 093eba0, aa2eefe), each
    stated for ALL inputs, in every build: what used to be "debug build panics, release build
    wraps" is now a total function that returns the value or the ParseError. *)
 
-(* D1 (8e2deb3) point accumulation, i16::wrapping_add: the delta is known modulo 2^16 and so is the
+(* D1 (33c9cfe) point accumulation, i16::wrapping_add: the delta is known modulo 2^16 and so is the
    sum, which is the next coordinate for ANY two int16 coordinates (the round trip above no longer
    asks for int16 deltas) *)
 Theorem C11_point_accumulation_exact : forall prev next,
@@ -409,7 +409,7 @@ Theorem C11_point_accumulation_exact : forall prev next,
 Proof. exact i16_accumulate. Qed.
 Print Assumptions C11_point_accumulation_exact.
 
-(* D2 (309cc90) and D4 (84a8f8b) compute_end_pts_of_contours, checked_add / checked_sub: for any
+(* D2 (86608df) and D4 (aa2eefe) compute_end_pts_of_contours, checked_add / checked_sub: for any
    list of contour sizes, each in any of its 255UInt16 forms, the result is endPtsOfContours (the
    running sums minus one), the point count and the rest of the stream when the first contour
    has a point and the sizes add up to at most 65535; ParseError::BadValue otherwise *)
@@ -433,7 +433,7 @@ Theorem C11_end_pts_rejects_empty_first_contour : forall counts encs rest,
 Proof. exact end_pts_rejects_empty_first_contour. Qed.
 Print Assumptions C11_end_pts_rejects_empty_first_contour.
 
-(* D3 (5955e8e) TransformedGlyphTable::read, checked_sub: on any bytes the reader returns a table
+(* D3 (093eba0) TransformedGlyphTable::read, checked_sub: on any bytes the reader returns a table
    or BadEof; a bboxStreamSize (u32 at offset 28) smaller than the bitmap that numGlyphs (u16 at
    offset 4) calls for is refused with BadEof *)
 Theorem C11_tglyf_reader_total : forall s, only_eof (read_tglyf s).
@@ -448,7 +448,7 @@ Theorem C11_tglyf_bbox_stream_checked : forall s num_glyphs bbox_stream_size r1 
 Proof. exact tglyf_bbox_stream_checked. Qed.
 Print Assumptions C11_tglyf_bbox_stream_checked.
 
-(* D4 (84a8f8b), the assertion of BoundingBox::from_points: a simple glyph that decode_simple_glyph
+(* D4 (aa2eefe), the assertion of BoundingBox::from_points: a simple glyph that decode_simple_glyph
    returns (from any bytes) has between 1 and 65535 points with int16 coordinates, one end point
    per contour and every end point the index of one of its points ... *)
 Theorem C11_decoded_simple_glyph_wf : forall m st nc eps ins pts st',
